@@ -25,6 +25,9 @@ func newExtension(h, s []byte, blist [][]byte, state nodeState) (node, error) {
 	if err != nil {
 		return nil, err
 	}
+	if node == nil {
+		return nil, common.ErrIllegalArgument
+	}
 	return &extension{
 		nodeBase: nodeBase{
 			hashValue:  h,
